@@ -423,6 +423,10 @@ def known_matches(k, v):
         return False
     if m.get("observed_equals_model") and d.get("got") != rec.get("model"):
         return False
+    if "rec_equals" in m:
+        for kk, vv in m["rec_equals"].items():
+            if rec.get(kk) != vv:
+                return False
     if m.get("got_equals_rec_model"):
         # the defective behaviour must be exactly the one recorded: konst's value = the hoisted-rev model's value
         g = d.get("got") or ""
